@@ -14,6 +14,11 @@
 (* Init); U = cost_upper_bound of the collection, at least the sum of the   *)
 (* sub-edits' initial upper bounds (the condition under which the           *)
 (* `unexpanded' formula  U - sum(initial.upper - current.upper)  is sound). *)
+(* The sub-edits' is_complete() is NOT consulted by the mechanism (a       *)
+(* sub-edit such as MultiSetEdit is "complete" long before its cost is      *)
+(* definitive): the binding replays every behaviour both over sub-edits     *)
+(* with the default answer and over sub-edits that claim to be complete     *)
+(* from the start.                                                          *)
 (* Not modelled: invalid edits (the lower bound never exceeds U here) and   *)
 (* explode_edits (the sub-edits are not compound).                          *)
 (*                                                                         *)
